@@ -385,6 +385,7 @@ NP = Namespace('np', {
     'arange': Builtin('np.arange', np_arange), 'dot': Builtin('np.dot', np_dot),
     'logical_not': Builtin('np.logical_not', np_logical_not),
     'linalg': NP_LINALG,
+    'newaxis': None,
 })
 
 
@@ -982,6 +983,14 @@ def norm_index(eng, i, n, what='index'):
 def getitem(eng, base, idx):
     if isinstance(base, OptObj):
         base = base.obj
+    if (is_num(base)) and isinstance(idx, tuple) and idx and idx[0] is Ellipsis and all(x is None for x in idx[1:]):
+        # scalar[..., np.newaxis] : a one-element array
+        r = base
+        for _ in idx[1:]:
+            r = [r]
+        return NDArr(r)
+    if isinstance(base, NDArr) and isinstance(idx, tuple) and idx and idx[0] is Ellipsis and idx[-1] is None and len(idx) == 2:
+        return NDArr(mapnd(lambda v: [v], base.data))
     if isinstance(idx, Opt):
         idx = eng.unopt(idx)
     if isinstance(base, tuple) or (isinstance(base, SList) and base.is_concrete()):
